@@ -1,50 +1,16 @@
 import ExprModel.Syntax.Parser
+import ExprModel.Syntax.ParserNum
 import ExprModel.Syntax.Printer
 import ExprModel.Gen.ParserTables
+import ExprModel.Gen.LexTables
 /- driver handlers for the parser model (C11; reused by C13/C04) -/
 namespace ExprModel.Drv
 open ExprModel ExprModel.Parser
 
-/-- digit value as in strconv.ParseUint -/
-def digitVal (c : Char) : Option Nat :=
-  if '0' ≤ c ∧ c ≤ '9' then some (c.toNat - 48)
-  else if 'a' ≤ c ∧ c ≤ 'z' then some (c.toNat - 87)
-  else if 'A' ≤ c ∧ c ≤ 'Z' then some (c.toNat - 55)
-  else none
-
-def digitsVal (base : Nat) : List Char → Nat → Option Nat
-  | [], acc => some acc
-  | c :: cs, acc =>
-    match digitVal c with
-    | some v => if v < base then digitsVal base cs (acc * base + v) else none
-    | none => none
-
-/-- `strconv.ParseInt(s, base, 64)` for unsigned input without underscores (`base0` = base argument 0) -/
-def goParseInt (s : String) (base0 : Bool) : Option Int :=
-  let cs := s.toList
-  let (base, ds) : Nat × List Char :=
-    if base0 then
-      match cs with
-      | '0' :: 'x' :: r | '0' :: 'X' :: r => (16, r)
-      | '0' :: 'b' :: r | '0' :: 'B' :: r => (2, r)
-      | '0' :: 'o' :: r | '0' :: 'O' :: r => (8, r)
-      | '0' :: c :: r => (8, c :: r)
-      | r => (10, r)
-    else (10, cs)
-  if ds.isEmpty then none else
-  match digitsVal base ds 0 with
-  | some n => if n < 2 ^ 63 then some (Int.ofNat n) else none
-  | none => none
-
-/-- the number branch of parsePrimaryExpression; floats come from the request's oracle table -/
-def numOf (floats : List (String × Option UInt64)) (v : String) : Option NumVal :=
-  let s := String.ofList (v.toList.filter (· != '_'))
-  if s.toList.any (fun c => c == 'x' || c == 'X') then (goParseInt s true).map .int
-  else if s.toList.any (fun c => c == '.' || c == 'e' || c == 'E') then
-    match floats.lookup v with
-    | some (some b) => some (.float b)
-    | _ => none
-  else (goParseInt s false).map .int
+/-- the number branch of parsePrimaryExpression: the lexer model's `parseNumber` with the classification
+    chain regenerated from parser.go (`Gen.numCfg`); float texts are converted by the request's oracle table -/
+def numOf (floats : List (String × Option UInt64)) : String → Option NumVal :=
+  numVia Gen.numCfg fun text => (floats.lookup text).join
 
 def floatEntry : Sexp → Option (String × Option UInt64)
   | .list [v, .atom "err"] => do pure (← v.asStr, none)
